@@ -137,7 +137,22 @@ ATTR = {
     ("fastainfo", "max_line_length"): ("int", "{0}.mll", False),
 }
 # writable attributes: (type, attr) -> lean field
-FIELD = {("ovres", "start"): "start", ("ovres", "end"): "stop", ("ovres", "rows"): "rows", ("scaffold", "rows"): "rows", ("assembly", "name"): "name", ("assembly", "curated"): "curated", ("assembly", "scaffolds"): "scaffolds", ("namer", "autosome_prefix"): "autosome_prefix", ("namer", "current_scaffold_name"): "current_scaffold_name", ("namer", "current_rank"): "current_rank", ("namer", "current_haplotype"): "current_haplotype", ("namer", "haplotig_n"): "haplotig_n", ("namer", "haplotig_scaffolds"): "haplotig_scaffolds", ("namer", "primary_haplotype"): "primary_haplotype", ("namer", "target_tags"): "target_tags", ("namer", "unloc_n"): "unloc_n", ("namer", "unloc_scaffolds"): "unloc_scaffolds", ("namer", "haplotype_lc_dict"): "haplotype_lc_dict"}
+CTOR_INIT = {"scaffold": "({ name := [] } : Scaffold)", "gap": "({ length := 0, gapType := [] } : Gap)",
+             "frag": "({ oid := newOid, name := [], start := 0, stop := 0, strand := 0 } : Fragment)",
+             "fastainfo": "({ length := 0, fileOffset := 0, rpl := 0, mll := 0 } : FastaInfo)"}
+# every attribute a constructor of the class must assign (python attribute -> lean field); private spellings (`_name`) are read through the public name
+CTOR_FIELDS = {"scaffold": {"name": "name", "rows": "rows", "tag": "tag", "haplotype": "haplotype", "rank": "rank", "original_name": "originalName",
+                            "original_tags": "originalTags"},
+               "gap": {"length": "length", "gap_type": "gapType"},
+               "frag": {"name": "name", "start": "start", "end": "stop", "strand": "strand", "tags": "tags"},
+               "fastainfo": {"length": "length", "file_offset": "fileOffset", "residues_per_line": "rpl", "max_line_length": "mll"}}
+FIELD = {("scaffold", "name"): "name", ("scaffold", "tag"): "tag", ("scaffold", "haplotype"): "haplotype", ("scaffold", "rank"): "rank",
+         ("scaffold", "original_name"): "originalName", ("scaffold", "original_tags"): "originalTags",
+         ("gap", "length"): "length", ("gap", "gap_type"): "gapType",
+         ("frag", "name"): "name", ("frag", "start"): "start", ("frag", "end"): "stop", ("frag", "strand"): "strand", ("frag", "tags"): "tags",
+         ("fastainfo", "length"): "length", ("fastainfo", "file_offset"): "fileOffset", ("fastainfo", "residues_per_line"): "rpl",
+         ("fastainfo", "max_line_length"): "mll",
+         ("ovres", "start"): "start", ("ovres", "end"): "stop", ("ovres", "rows"): "rows", ("scaffold", "rows"): "rows", ("assembly", "name"): "name", ("assembly", "curated"): "curated", ("assembly", "scaffolds"): "scaffolds", ("namer", "autosome_prefix"): "autosome_prefix", ("namer", "current_scaffold_name"): "current_scaffold_name", ("namer", "current_rank"): "current_rank", ("namer", "current_haplotype"): "current_haplotype", ("namer", "haplotig_n"): "haplotig_n", ("namer", "haplotig_scaffolds"): "haplotig_scaffolds", ("namer", "primary_haplotype"): "primary_haplotype", ("namer", "target_tags"): "target_tags", ("namer", "unloc_n"): "unloc_n", ("namer", "unloc_scaffolds"): "unloc_scaffolds", ("namer", "haplotype_lc_dict"): "haplotype_lc_dict"}
 # labelling attributes of an OverlapResult written through a reference: python attribute -> (model field, python type, conversion of the value)
 # (`name` / `rank` cannot hold None in the model's structure: a None name is kept as the text "None", a None rank as 0 — neither can arise after
 #  make_scaffold_name, which always sets a str name and an int rank)
@@ -2353,11 +2368,12 @@ class Kernel:
                                    + self.block(rest, env, loop))
         if isinstance(tg, ast.Attribute):
             b, tb = self.expr(tg.value, env, binds)
-            if not isinstance(tg.value, ast.Name) or (tb, tg.attr) not in FIELD:
+            attr = tg.attr.lstrip("_") if self.spec.get("ctor") and (tb, tg.attr) not in FIELD else tg.attr
+            if not isinstance(tg.value, ast.Name) or (tb, attr) not in FIELD:
                 raise Unsupported(f"assignment to .{tg.attr} of {tb}")
             t, ty = self.expr(s.value, env, binds)
-            fty = ATTR[(tb, tg.attr)][0]
-            l = self.let(tg.value.id, tb, f"{{ {b} with {FIELD[(tb, tg.attr)]} := {self.coerce(t, ty, fty)} }}")
+            fty = ATTR[(tb, attr)][0]
+            l = self.let(tg.value.id, tb, f"{{ {b} with {FIELD[(tb, attr)]} := {self.coerce(t, ty, fty)} }}")
             return self.with_binds(binds, [l] + self.block(rest, env, loop))
         if isinstance(tg, ast.Subscript) and isinstance(tg.value, ast.Name) and tg.value.id in self.aliases and isinstance(env.get(self.aliases[tg.value.id]), tuple) \
                 and env[self.aliases[tg.value.id]][0] == "dict":
@@ -3270,6 +3286,18 @@ def translate(spec):
             k.roots.append((nm, ty))
             if p not in spec.get("init_empty", []):
                 k.param(nm, ty)
+        if spec.get("ctor"):
+            # a constructor: `self` starts as a blank object of the class and is the result; EVERY attribute of the class must be assigned
+            cty = spec["ctor"]
+            env["self"] = cty
+            k.roots.append(("self", cty))
+            assigned_attrs = {t.attr.lstrip("_") for n in ast.walk(fn) if isinstance(n, ast.Assign) for t in n.targets
+                              if isinstance(t, ast.Attribute) and isinstance(t.value, ast.Name) and t.value.id == "self"}
+            missing = sorted(set(CTOR_FIELDS[cty]) - assigned_attrs)
+            if missing:
+                raise Unsupported(f"the constructor does not assign {missing}")
+            if cty == "frag":
+                k.param("newOid", "nat")
         for p, ty in spec.get("reads", {}).items():
             env[p] = ty                     # a shared arena (or other value) the kernel only reads: a parameter, not a result
             k.param(p, ty)
@@ -3314,15 +3342,40 @@ def translate(spec):
     if k.ret_ty != "unit":
         parts.append(lean_ty(k.ret_ty))
     rty = "Unit" if not parts else " × ".join(parts)
-    sink_inits = [f"  let {mg(n)} : {lean_ty(t)} := {'0' if t == 'int' else ('none' if isinstance(t, tuple) and t[0] == 'opt' else '[]')}" for n, t in k.roots if t in ("sink_str", "sink_bytes") or n == "yielded_" or (n in ("heap_sc", "heap_b") and n not in spec.get("dict_roots", {})) or (n in ("heap_lo", "added_lo") and spec.get("leftover_arena")) or n in spec.get("extra_roots", {}) or n in [p.replace(".", "_") for p in spec.get("init_empty", [])]]
+    ctor_init = [f"  let self : {lean_ty(spec['ctor'])} := {CTOR_INIT[spec['ctor']]}"] if spec.get("ctor") else []
+    sink_inits = ctor_init + [f"  let {mg(n)} : {lean_ty(t)} := {'0' if t == 'int' else ('none' if isinstance(t, tuple) and t[0] == 'opt' else '[]')}" for n, t in k.roots if t in ("sink_str", "sink_bytes") or n == "yielded_" or (n in ("heap_sc", "heap_b") and n not in spec.get("dict_roots", {})) or (n in ("heap_lo", "added_lo") and spec.get("leftover_arena")) or n in spec.get("extra_roots", {}) or n in [p.replace(".", "_") for p in spec.get("init_empty", [])]]
     # parameter order = the order of the kernel's declaration (params, attr_params, opaque, then newOid): independent of the order of use
     order = ["fs_exists", "fs_mtime", "fs_open", "store", "nextOid", "heap_ff", "heap_lo"] + list(spec.get("reads", {})) + [p.replace(".", "_") for p in spec.get("dict_roots", {})] + [mg(n) for n in spec.get("params", {})] + [p.replace(".", "_") for p in spec.get("attr_params", {})] \
         + [p.replace(".", "_") for p in spec.get("opaque", {})] + ["newOid"]
     k.params.sort(key=lambda nt: order.index(nt[0]) if nt[0] in order else len(order))
     params = ("(fuel : Nat) " if k.uses_fuel else "") + " ".join(f"({n} : {lean_ty(t)})" for n, t in k.params)
+    extra = ""
+    if spec.get("ctor"):
+        # the constructor applied to the DEFAULT values of its signature (those that are literals): what `Class(required…)` builds
+        args_ = [a for a in fn.args.args if a.arg != "self"]
+        defaults = dict(zip([a.arg for a in args_][len(args_) - len(fn.args.defaults):], fn.args.defaults))
+        terms, free = [], []
+        ok = True
+        for n, t in k.params:
+            base = n[:-2] if n.endswith("_v") and n[:-2] in RESERVED else n
+            if base in defaults:
+                d = defaults[base]
+                try:
+                    dt, dty = Kernel(spec).expr(d, {}, [])
+                    terms.append(Kernel(spec).coerce(dt, dty, t))
+                except Unsupported as e:
+                    ok = False
+                    extra = f"\n/- the default `{base}={ast.unparse(d)}` of {qual} has no value of the declared type {t}: {e} -/\ndef {lean_name}_defaults_UNSUPPORTED : Unit := ()\n"
+                    break
+            else:
+                terms.append(n)
+                free.append((n, t))
+        if ok:
+            extra = (f"\n/- {qual} with the default values of its signature ({', '.join(f'{a}={ast.unparse(v)}' for a, v in defaults.items())}) -/\n"
+                     f"def {lean_name}_defaults " + " ".join(f"({n} : {lean_ty(t)})" for n, t in free) + f" : R ({rty}) :=\n  {lean_name} " + " ".join(terms) + "\n")
     SIGS[lean_name] = dict(params=list(k.params), roots=list(k.roots), ret=k.ret_ty, fuel=k.uses_fuel, spec=spec,
                            pyargs=[a.arg for a in fn.args.args if a.arg != "self"], stopiter=any("PyRt.iterNext" in l for l in lines))
-    return (f"/- translated from {rel}::{qual}\n{doc}\n-/\ndef {lean_name} {params} : R ({rty}) :=\n" + "\n".join(sink_inits + ["  " + l for l in lines]) + "\n")
+    return (f"/- translated from {rel}::{qual}\n{doc}\n-/\ndef {lean_name} {params} : R ({rty}) :=\n" + "\n".join(sink_inits + ["  " + l for l in lines]) + "\n" + extra)
 
 
 IMP_KERNELS_2 = [
@@ -3581,6 +3634,17 @@ P2_KERNELS = [
 ]
 
 P3_KERNELS = [
+    # CONSTRUCTORS.  Everywhere else a constructor call `Scaffold(name)`, `Gap(n, t)` … is emitted as the model's structure literal, whose unset
+    # fields take the MODEL's defaults; these kernels translate the `__init__` bodies and their signature defaults, and the guard theorems
+    # (`Properties/C*ImpCtor.lean`) prove that they build exactly those literals.
+    dict(file="assembly/scaffold.py", qual="Scaffold.__init__", lean="Scaffold___init__", p2=True, ctor="scaffold",
+         params={"name": "str", "rows": O(L("row")), "tag": O("str"), "haplotype": O("str"), "rank": "int", "original_name": O("str"),
+                 "original_tags": O(L("str"))}),
+    dict(file="assembly/gap.py", qual="Gap.__init__", lean="Gap___init__", p2=True, ctor="gap", params={"length": "int", "gap_type": "str"}),
+    dict(file="assembly/fragment.py", qual="Fragment.__init__", lean="Fragment___init__", p2=True, ctor="frag",
+         params={"name": "str", "start": "int", "end": "int", "strand": "int", "tags": L("str")}),
+    dict(file="fasta/index.py", qual="FastaInfo.__init__", lean="FastaInfo___init__", p2=True, ctor="fastainfo",
+         params={"length": "int", "file_offset": "int", "residues_per_line": "int", "max_line_length": "int"}),
     # the chromosome-list CSV (C10): `csv_str` is a text buffer
     dict(file="assembly/assembly_stats.py", qual="AssemblyStats.chromosome_name_csv", lean="AssemblyStats_chromosome_name_csv", p2=True,
          params={"asm": "assembly"}, attr_params={"self.autosome_prefix": "str"}, returns=O("str"),
